@@ -54,6 +54,12 @@ class Ctl:
     def __init__(self, prefix=(), query_timeout_ms=20000):
         self.solver = z3.Solver()
         self.solver.set("timeout", query_timeout_ms)
+        # branch feasibility is decided against the path condition only (an over-approximation of feasibility
+        # under the stub contracts: it can only add paths, never lose one); the full solver - with the
+        # non-linear contracts - decides the obligations.  Witness search under the contracts does not
+        # terminate reliably in nlsat and does not honour its time-out.
+        self.light = z3.Solver()
+        self.light.set("timeout", 5000)
         self.prefix = list(prefix)
         self.trace = []
         self.work = []
@@ -63,21 +69,25 @@ class Ctl:
         self.cast_traps = []
         self.obligations = []  # (name, formula)
         self.notes = []
+        self.path = []  # decided branch conditions
         self.memo = {}  # (kind, ast ids) -> (fresh var, kept asts): quotient / root / modulus variables
 
     # -- assumptions (stub contracts, definitions of fresh quotients / roots)
-    def assume(self, f, text=None):
+    def assume(self, f, text=None, light=False):
         self.solver.add(f)
         self.assumptions.append((text, f))
+        if light:
+            # cheap (linear) facts are also given to the branch-feasibility solver to prune impossible orderings
+            self.light.add(f)
 
     def implied(self, c):
         """True / False if the path condition decides c, else None"""
         self.nq += 1
-        r = self.solver.check(z3.Not(c))
+        r = self.light.check(z3.Not(c))
         if r == z3.unsat:
             return True
         self.nq += 1
-        r2 = self.solver.check(c)
+        r2 = self.light.check(c)
         if r2 == z3.unsat:
             return False
         return None
@@ -93,8 +103,8 @@ class Ctl:
             d = self.prefix[i]
         else:
             self.nq += 2
-            st = self.solver.check(c)
-            sf = self.solver.check(z3.Not(c))
+            st = self.light.check(c)
+            sf = self.light.check(z3.Not(c))
             if st == z3.unknown or sf == z3.unknown:
                 self.unknown += 1
             t_ok = st != z3.unsat
@@ -109,7 +119,10 @@ class Ctl:
             else:
                 raise Abort()
         self.trace.append(d)
-        self.solver.add(c if d else z3.Not(c))
+        f = c if d else z3.Not(c)
+        self.path.append(f)
+        self.solver.add(f)
+        self.light.add(f)
         return d
 
     def oblige(self, name, f):
@@ -542,8 +555,21 @@ class Z:
         return s._concrete_int("index")
 
     def __int__(s):
-        # int() truncates: only used by the library on counts (already integral)
-        return s._concrete_int("int")
+        # int() truncates toward zero; the solver enumerates the feasible integer results
+        c = ctl()
+        e = z3.simplify(s.re)
+        if z3.is_rational_value(e):
+            fr = Fraction(e.numerator_as_long(), e.denominator_as_long())
+            return int(fr)
+        if c.decide(e >= 0):
+            for k in range(0, 65):
+                if c.decide(z3.And(e >= k, e < k + 1)):
+                    return k
+        else:
+            for k in range(0, 65):
+                if c.decide(z3.And(e <= -k, e > -k - 1)):
+                    return -k
+        raise Abort()
 
     def __float__(s):
         e = z3.simplify(s.re)
@@ -632,6 +658,11 @@ def _nonzero(den):
 # helpers to build / read symbolic arrays
 
 
+def int_var(name):
+    """a symbolic *integer* (as a real-valued term)"""
+    return Z(z3.ToReal(z3.Int(name)))
+
+
 def var(name, complex_=False):
     if complex_:
         return Z(z3.Real(name + ".re"), z3.Real(name + ".im"))
@@ -691,3 +722,101 @@ def eq_formula(a, b):
 
 def is_symbolic_array(x):
     return isinstance(x, np.ndarray) and x.dtype == object
+
+
+# ------------------------------------------------------------------------------------------
+# linear abstraction: every non-linear monomial becomes an opaque real atom.  If the abstraction of
+# (assumptions & path & not goal) is unsat, so is the original (the abstraction only has more models).
+
+
+class Linearizer:
+    def __init__(self, squares=None):
+        self.atoms = {}
+        self.cache = {}
+        # r.get_id() -> radicand, for fresh roots r (r*r == radicand is an assumption): r*r is rewritten
+        self.squares = squares or {}
+
+    def atom(self, key):
+        a = self.atoms.get(key)
+        if a is None:
+            a = z3.Real(f"m!{len(self.atoms)}")
+            self.atoms[key] = a
+        return a
+
+    def lin(self, e):
+        i = e.get_id()
+        r = self.cache.get(i)
+        if r is not None:
+            return r[0]
+        r = self._lin(e)
+        self.cache[i] = (r, e)
+        return r
+
+    def _lin(self, e):
+        if z3.is_const(e) or z3.is_rational_value(e) or z3.is_var(e):
+            return e
+        k = e.decl().kind()
+        ch = [self.lin(c) for c in e.children()]
+        if k == z3.Z3_OP_MUL:
+            coef = [c for c in ch if z3.is_rational_value(c)]
+            rest = [c for c in ch if not z3.is_rational_value(c)]
+            if self.squares:
+                # expand small integer powers and replace pairs of a root variable by its radicand
+                flat = []
+                for c0 in e.children():
+                    if z3.is_rational_value(c0):
+                        continue
+                    if c0.decl().kind() == z3.Z3_OP_POWER and z3.is_rational_value(c0.arg(1)) and c0.arg(1).denominator_as_long() == 1 \
+                            and 1 <= c0.arg(1).numerator_as_long() <= 4:
+                        flat += [c0.arg(0)] * c0.arg(1).numerator_as_long()
+                    else:
+                        flat.append(c0)
+                changed = False
+                for rid, rad in self.squares.items():
+                    while sum(1 for f in flat if f.get_id() == rid) >= 2:
+                        n = 0
+                        new = []
+                        for f in flat:
+                            if f.get_id() == rid and n < 2:
+                                n += 1
+                                continue
+                            new.append(f)
+                        flat = new + [rad]
+                        changed = True
+                if changed:
+                    prod = flat[0]
+                    for f in flat[1:]:
+                        prod = prod * f
+                    for c0 in coef:
+                        prod = c0 * prod
+                    return self.lin(z3.simplify(prod, som=True))
+            if len(rest) >= 2:
+                key = ("mul",) + tuple(sorted(c.get_id() for c in rest))
+                a = self.atom(key)
+                self.cache[("keep", key)] = rest
+                out = a
+                for c in coef:
+                    out = c * out
+                return out
+            return e.decl()(*ch) if ch else e
+        if k == z3.Z3_OP_POWER and self.squares and e.arg(0).get_id() in self.squares and z3.is_rational_value(e.arg(1)) \
+                and e.arg(1).denominator_as_long() == 1 and e.arg(1).numerator_as_long() == 2:
+            return self.lin(self.squares[e.arg(0).get_id()])
+        if k == z3.Z3_OP_POWER and z3.is_rational_value(e.arg(1)) and e.arg(1).denominator_as_long() == 1 and 2 <= e.arg(1).numerator_as_long() <= 4:
+            # x^k and x*...*x are the same monomial
+            b = ch[0]
+            key = ("mul",) + tuple([b.get_id()] * e.arg(1).numerator_as_long())
+            self.cache[("keep", key)] = [b]
+            return self.atom(key)
+        if k == z3.Z3_OP_POWER:
+            key = ("pow",) + tuple(c.get_id() for c in ch)
+            self.cache[("keep", key)] = ch
+            return self.atom(key)
+        if k in (z3.Z3_OP_DIV, z3.Z3_OP_IDIV) and not z3.is_rational_value(ch[1]):
+            key = ("div",) + tuple(c.get_id() for c in ch)
+            self.cache[("keep", key)] = ch
+            return self.atom(key)
+        try:
+            return e.decl()(*ch)
+        except Exception:
+            return e
